@@ -61,6 +61,11 @@ was strengthened (never by loosening a check):
 | C01-6 (empty IPFIX data set accepted, `chunks(0)` panics in the common view) | panics of re-export / common view were judged only on results the reference explains | judged on every returned value |
 | C12-6 (unknown-version error carries the whole buffer instead of the unparsed bytes) | the payload of the error was projected but never compared | payload must be the unparsed bytes (with or without the version field) |
 | C17-6 (feature off: a V9 data flowset under an unknown-field template fails the packet, later template flowsets are lost) | the builds were compared on known-only streams; in mixed streams the feature-off run adopted its own (wrong) caches | `TraceEq.tla` MIXED mode: on mixed streams both builds must hold the same templates after every call and return identical packets wherever no unknown field type is mentioned. This also exposed a genuine divergence on the pinned tree (IPFIX, known finding `KF-c17-ipfix-templates-after-unknown-field-set`) |
+| C15-5 (`reserve_exact(1)` before every push: the result vector is reallocated once per chained packet) | the counting allocator charged a reallocation only with its growth, so the total stayed linear | `CostM`: the bytes reallocations may have had to copy (old size of every block passed to `realloc`) are bounded by 4 x allocated + 1 MiB (measured on the repaired tree: <= 1.0 x) |
+| C03-8 (record length memoised per thread by the first V5/V7 packet decoded on it) | every driver happened to decode a V5 packet first on its worker thread | half of the sessions start on a fresh worker thread (`"fresh"` on `reset`), the others inherit the thread |
+| C02-7 (V9 header count 0 read as "until the end of the buffer") | a packet's own header was not held against the number of flowsets reported for it | `Accounting`: a V9 packet has at most `count` flowsets; count-0 headers followed by flowset-shaped bytes in `hostile`; header-only packets in conformant streams |
+| C16-6 again (found by 1 session in 100, lost when the generators changed) | detection depended on a lucky merge order | `lagged_twins_session`: the second parser runs 2-3 calls behind the first over a stream that redefines an id between two data packets |
+| C03-7, C10-8 (protocol byte 255 / negative 3-byte value panic) - caught by C01 | a call or conversion that does not return was only C01's business | it is also reported under the decode / export / common / JSON property of the packet kinds involved |
 | C08-6 (thread-local export scratch keeps the surplus records of an over-full structure) | only in-domain structures were exported | structures with count != number of records exported in between (no verdict on them) |
 
 | change | what it does | what it needs to manifest | confirmed | checks that report a VIOLATION | own property's check |
